@@ -481,7 +481,21 @@ def f6c_mask_exclusions(prog, ctx):
         ctx.inconclusive("F6", "names outside the masking rule", "", str(e))
 
 
+def f10_f11_imports(prog, ctx):
+    """F10: econf_readConfig on an object with PARSING_DIRS=<a>:<b> reads what econf_readDirs(<a>, <b>) reads - for EMPTY members too (an
+    empty directory is what readDirs makes of NULL): the option parser keeps empty list members (= C15.O11).
+    F11: folding the history with econf_mergeFiles() gives the merged read AND leaves the members as they were handed out: the merge does
+    not write to, empty or free its inputs (= C03.M1)."""
+    from rules import common as _common
+    from rules import C15 as _C15, C03 as _C03
+    _common.import_obligations(ctx, prog, [_C15.o11_list_members], "F10", "PARSING_DIRS/CONFIG_DIRS name the same directories as the arguments: ",
+                               what="splitting of the option lists")
+    _common.import_obligations(ctx, prog, [_C03.run], "F11", "folding the history leaves its members intact: ", keep=lambda ob: ob.rule == "M1",
+                               what="effects of the merge on its inputs")
+
+
 def run(prog, ctx):
+    f10_f11_imports(prog, ctx)
     f6c_mask_exclusions(prog, ctx)
     f9_out_params_start_fresh(prog, ctx)
     f8_history_complete(prog, ctx)
